@@ -115,7 +115,7 @@ func init() {
 			"finiteness, documented range, monotonicity (4 ulp tolerance); last cases: module activations on vectors of length 1-8 with " +
 			"magnitudes up to 1e300 incl. all-negative vectors below -1e19. evaluations = function applications and registry queries. " +
 			"An input is non-trivial if the function value is strictly inside its range; distinct by (type, input bits).",
-		Assumptions: []string{"inputs finite with |x| <= 1e300; negative zero is not distinguished from zero", "math.Exp / Tanh / Sin of the Go runtime are trusted"},
+		Assumptions: []string{"inputs finite with |x| <= 1e300; at negative zero every function but the step function (which the library defines by the sign bit) must give its value at zero", "math.Exp / Tanh / Sin of the Go runtime are trusted"},
 		Cases: func(tier string) int {
 			return 1 + len(refActs)*c18Batches + 8
 		},
@@ -246,6 +246,19 @@ func c18Scalar(c *Ctx, ra *refAct, xs []float64) {
 		ax := math.Abs(x)
 		if ax == 1 || ax == 4 {
 			c.Count("scalar.at_breakpoint", 1)
+		}
+		if x == 0 && ra.typ != neatmath.StepActivation {
+			// the other zero: -0 is zero (the step function alone is defined by the sign bit in the library and is left out)
+			nz := math.Copysign(0, -1)
+			yz, zerr := factory.ActivateByType(nz, nil, ra.typ)
+			c.Eval(1)
+			c.Count("scalar.at_negative_zero", 1)
+			if zerr != nil || math.IsNaN(yz) || math.Abs(yz-w) > 1e-12*math.Max(math.Abs(w), math.Abs(yz))+1e-18 {
+				dz := d()
+				dz["x"] = "-0"
+				c.Violate("value", dz, "%s(-0) = %v (%v), the closed form gives %v at zero", ra.name, yz, zerr, w)
+				return
+			}
 		}
 		if y > ra.lo && y < ra.hi {
 			h := newHasher()
